@@ -387,7 +387,7 @@ fn build_pool(seed: u64, idx: u64, out: &mut RunOut) -> (Vec<Call>, bool, String
   let mut shared = false;
   let origin;
   let feats_opts: [Option<Vec<String>>; 3] = [None, Some(vec![]), Some(vec!["featx".into()])];
-  match rk.weighted(&[5, 3, 3, 2, 2, 2, 1, 2, 2]) {
+  match rk.weighted(&[5, 3, 3, 2, 2, 2, 1, 2, 2, 2]) {
     0 => {
       // two or three independently inferred schemas: they reuse the rule names root, r1, r2, ... with
       // different definitions; conforming, perturbed and malformed documents; all formats
@@ -673,6 +673,52 @@ fn build_pool(seed: u64, idx: u64, out: &mut RunOut) -> (Vec<Call>, bool, String
       let (lit, docs) = *rw.pick(REGEX_LITERALS);
       pool.push(Call { kind: "json".into(), schema: format!("root = tstr .regexp {}\n", cddl_text_literal(lit)), doc: jstr(docs[0]), features: None });
       pool.push(Call { kind: "json".into(), schema: "root = { ? u: uri, ? d: tdate }\n".into(), doc: b"{\"u\":\"urn:a:b\",\"d\":\"2020-01-01T00:00:00Z\"}".to_vec(), features: None });
+    }
+    9 => {
+      // reference structure: chains and cycles of plain rule references of seeded length, reached from the
+      // root directly, through a choice, under a map key, as an array element: the validators' own
+      // recursion guard and alias resolution build per-call name sets whose content must not leak into
+      // the response in an order that changes from call to call
+      origin = "reference-structure".to_string();
+      out.probe("pool_reference_structure");
+      for _ in 0..rw.range(1, 3) {
+        let k = rw.range(1, 6);
+        let pre = *rw.pick(&["c", "rule-", "n_", "x"]);
+        let cyclic = rw.chance(2, 3);
+        let mut schema = String::new();
+        let (head, docs): (String, Vec<&str>) = match rw.below(6) {
+          0 => (format!("root = {}0\n", pre), vec!["1", "\"s\""]),
+          1 => (format!("root = int / {}0\n", pre), vec!["1", "\"s\"", "null"]),
+          2 => (format!("root = {{ k: {}0 }}\n", pre), vec!["{\"k\":1}", "{\"k\":\"s\"}", "{}"]),
+          3 => (format!("root = [ {}0 ]\n", pre), vec!["[1]", "[\"s\"]", "[]"]),
+          4 => (format!("root = [* {}0]\n", pre), vec!["[1,2]", "[\"s\",1]", "[]"]),
+          _ => (format!("root = {{ * tstr => {}0 }}\n", pre), vec!["{\"a\":1,\"b\":2}", "{\"a\":\"s\"}", "{}"]),
+        };
+        schema.push_str(&head);
+        for i in 0..k {
+          let next = if i + 1 < k {
+            format!("{}{}", pre, i + 1)
+          } else if cyclic {
+            format!("{}{}", pre, rw.below(k))
+          } else {
+            rw.pick(&["int", "tstr", "[int]", "{ a: int }"]).to_string()
+          };
+          if rw.chance(1, 4) {
+            schema.push_str(&format!("{}{} = {} / {}\n", pre, i, rw.pick(&["bool", "nil", "float"]), next));
+          } else {
+            schema.push_str(&format!("{}{} = {}\n", pre, i, next));
+          }
+        }
+        for d in docs {
+          pool.push(Call { kind: "json".into(), schema: schema.clone(), doc: d.as_bytes().to_vec(), features: None });
+          if let Ok(v) = serde_json::from_str::<serde_json::Value>(d) {
+            let mut b = Vec::new();
+            if ciborium::ser::into_writer(&v, &mut b).is_ok() {
+              pool.push(Call { kind: "cbor".into(), schema: schema.clone(), doc: b, features: None });
+            }
+          }
+        }
+      }
     }
     _ => {
       // one AST shared by reference between clients that build their own validators on it
